@@ -19,6 +19,9 @@ def fmt(v):
     return '0' if s in ('-0', '') else s
 
 
+SQUARE = [False]
+
+
 def axis_attrs(shape, axis, q, a, b, rng=None):
     """attribute (name, value) giving quantity q of the interval [a,b] on the axis"""
     if q == 's':
@@ -33,6 +36,8 @@ def axis_attrs(shape, axis, q, a, b, rng=None):
     if q == 'l':
         if shape == 'circle' and (rng is None or rng.chance(0.5)):
             return ('r', fmt((b - a) / 2))
+        if shape == 'ellipse' and SQUARE[0] and rng is not None and rng.chance(0.4):
+            return ('r', fmt((b - a) / 2))        # one radius for both axes (only generated for square boxes)
         if shape == 'ellipse' and (rng is None or rng.chance(0.5)):
             return ('r' + axis, fmt((b - a) / 2))
         return ({'x': 'width', 'y': 'height'}[axis], fmt(b - a))
@@ -151,7 +156,8 @@ def run(ctx):
     ndoc = 40 if quick else 600
     for di in range(ndoc):
         shape = rng.choice(['rect', 'circle', 'ellipse', 'line'])
-        x1, y1, x2, y2 = gen_box(rng, dyadic=True, square=(shape == 'circle'))
+        SQUARE[0] = shape == 'circle' or (shape == 'ellipse' and rng.chance(0.3))
+        x1, y1, x2, y2 = gen_box(rng, dyadic=True, square=SQUARE[0])
         els = []; spell = []
         # the same translation on every spelling, written as dxy shorthand or dx / dy longhand (dx != dy mostly)
         ddx = ddy = 0.0
@@ -180,6 +186,23 @@ def run(ctx):
         xml = '<svg>' + ''.join(els) + '</svg>'
         docs.append((doc_case('d%d' % di, xml, {'add_auto_styles': False}), shape, (x1 + ddx, y1 + ddy, x2 + ddx, y2 + ddy), spell))
         dist['doc_with_dxy'] = dist.get('doc_with_dxy', 0) + (1 if ddx or ddy else 0)
+    SQUARE[0] = False
+    # size deltas: the shorthand dwh and the longhand dw / dh on every spelling of position and size of one rect
+    for di in range(ndoc // 2):
+        x1, y1, x2, y2 = gen_box(rng, dyadic=True)
+        dw = rng.range(-8, 40) / 4.0; dh = rng.range(-8, 40) / 4.0
+        if x2 - x1 + dw <= 0: dw = 1.0
+        if y2 - y1 + dh <= 0: dh = 1.0
+        els = []; spell = []
+        for posn in ([('x', fmt(x1)), ('y', fmt(y1))], [('xy', '%s %s' % (fmt(x1), fmt(y1)))]):
+            for size in ([('width', fmt(x2 - x1)), ('height', fmt(y2 - y1))], [('wh', '%s %s' % (fmt(x2 - x1), fmt(y2 - y1)))]):
+                for delta in ([('dwh', '%s %s' % (fmt(dw), fmt(dh)))], [('dw', fmt(dw)), ('dh', fmt(dh))]):
+                    attrs = posn + size + delta
+                    if rng.chance(0.5): rng.shuffle(attrs)
+                    els.append(xmlcanon.el('rect', attrs)); spell.append(attrs)
+        xml = '<svg>' + ''.join(els) + '</svg>'
+        docs.append((doc_case('w%d' % di, xml, {'add_auto_styles': False}), 'rect', (x1, y1, x2 + dw, y2 + dh), spell))
+        dist['doc_with_dwh'] = dist.get('doc_with_dwh', 0) + 1
     dres = lib.run_impl([d[0] for d in docs])
     for c, shape, box, spell in docs:
         st['evaluations'] += 1; st['distinct_nontrivial'] += 1
